@@ -112,8 +112,15 @@ def _prune(prefix, keep, spare=2):
         return
     others = [d for d in os.listdir(CACHE) if d.startswith(prefix) and d != keep and not d.endswith(".lock")]
     others.sort(key=lambda d: os.path.getmtime(os.path.join(CACHE, d)), reverse=True)
+    now = time.time()
     for d in others[spare:]:
-        shutil.rmtree(os.path.join(CACHE, d), ignore_errors=True)
+        path = os.path.join(CACHE, d)
+        try:
+            if now - os.path.getmtime(path) < 2 * 3600:
+                continue      # recent: a check running on another tree (VERIF_REPO) may be using it
+        except OSError:
+            continue
+        shutil.rmtree(path, ignore_errors=True)
 
 
 def build_lib(variant="plain"):
@@ -662,6 +669,34 @@ def history_check(res, hp, tier, seed, proof=True):
     res.cov["model_detail_mismatches"] = res.cov.get("model_detail_mismatches", 0) + detail_mismatch
     res.cov["disagreements_checked"] = res.cov.get("disagreements_checked", 0) + len(bad)
     res.cov["samples"] += [dict(c.to_json(), unit=unit, ops=c.ops[:40]) for c in cases[:2] + cases[-1:]]
+
+    # a hang seen in a batch on a loaded machine may be slowness: re-run such a case alone with a
+    # tenfold time budget; only a case that hangs again is reported
+    confirmed = []
+    unconfirmed = 0
+    hang_confirmed = False
+    reruns = 0
+    for c, v in bad:
+        if v["kind"] == "timeout" and not hang_confirmed:
+            reruns += 1
+            if reruns > 10:
+                unconfirmed += 1      # ten hangs in a row did not reproduce alone: a loaded machine
+                continue
+            os.environ["VERIF_WATCHDOG_SCALE"] = "10"
+            try:
+                rr = _run_pair(hp, drv, exe, [c])[c.id]
+                vv = _classify(hp, rr)
+            finally:
+                os.environ.pop("VERIF_WATCHDOG_SCALE", None)
+            if vv is None:
+                unconfirmed += 1
+                continue
+            v = vv
+            if v["kind"] == "timeout":
+                hang_confirmed = True
+        confirmed.append((c, v))
+    bad = confirmed
+    res.cov["batch_timeouts_not_reproduced_alone"] = res.cov.get("batch_timeouts_not_reproduced_alone", 0) + unconfirmed
 
     # report: shrink each distinct kind once
     reported = set()
